@@ -157,6 +157,7 @@ func Uninstall() {
 	vhook.SkipHeightFn = nil
 	vhook.NowFn = nil
 	vhook.FaultFn = nil
+	vhook.EntryFn = nil
 }
 
 // Register names the calling goroutine (clients).
